@@ -1,5 +1,5 @@
 (* OpsTxId.v — protocol ops for C05. *)
-From MRS Require Import Model.Base Model.Codec Model.Keccak Model.TxId Spec.TxIdSpec Model.OpsCodec.
+From MRS Require Import Model.Base Model.Codec Model.Keccak Model.TxId Model.BlockId Spec.TxIdSpec Model.OpsCodec.
 From Coq Require Import String Ascii.
 Open Scope string_scope.
 
@@ -21,6 +21,19 @@ Definition ops_txid (op : string) (args0 : list string) : option string :=
              | Some b => Some (match spec_id keccak256 sz b, spec_prefix_hash keccak256 sz b with
                                | Some i, Some p => "OK " ++ show_hex i ++ " " ++ show_hex p
                                | _, _ => "ERR" end)
+             | None => None end
+    | _ => None end
+  else if String.eqb op "blockfull" then
+    (* a complete block from its bytes: Block::tx_root, serialize_hashable, id of the PARSED block *)
+    match args with
+    | [h] => match parse_hex h with
+             | Some b => Some (match deserialize (dec_block sz) b with
+                               | Ok blk =>
+                                   match block_tx_root keccak256 blk, block_hashable keccak256 blk, block_id_of keccak256 blk with
+                                   | Ok root, Ok blob, Ok id => "OK " ++ show_hex root ++ " " ++ show_hex blob ++ " " ++ show_hex id
+                                   | Panic, _, _ | _, Panic, _ | _, _, Panic => "PANIC"
+                                   | _, _, _ => "ERR" end
+                               | Err _ => "ERR" | Panic => "PANIC" end)
              | None => None end
     | _ => None end
   else None.
